@@ -12,8 +12,15 @@ import z3
 _K = z3
 
 
-def feval(e, env, defs=None, cache=None):
+def feval(e, env, defs=None, cache=None, tol=0.0):
+    """tol > 0: equalities between non-integers hold within a relative/absolute tolerance (used when a float assignment
+    is tested against a path condition that contains exact identities such as cos^2 + sin^2 = 1)."""
     defs = defs or {}
+
+    def _eq(a, b):
+        if tol and (isinstance(a, float) or isinstance(b, float)) and not isinstance(a, bool) and not isinstance(b, bool):
+            return abs(a - b) <= tol * max(1.0, abs(a), abs(b))
+        return a == b
     cache = {} if cache is None else cache
 
     def ev(t):
@@ -113,7 +120,7 @@ def feval(e, env, defs=None, cache=None):
         if kind == z3.Z3_OP_GT:
             return ev(ch[0]) > ev(ch[1])
         if kind == z3.Z3_OP_EQ:
-            return ev(ch[0]) == ev(ch[1])
+            return _eq(ev(ch[0]), ev(ch[1]))
         if kind == z3.Z3_OP_DISTINCT:
             vs = [ev(c) for c in ch]
             return len(set(vs)) == len(vs)
